@@ -295,7 +295,7 @@ def resize(
                 to_add_index = np.random.choice(degrees_max)
             elif node_select == "weight":
                 weights = np.array([w[degrees[n][0]] for n in degrees_max])
-                to_add_index = np.random.choice(np.where(weights == weights.max())[0])
+                to_add_index = degrees_max[np.random.choice(np.where(weights == weights.max())[0])]
 
             to_add = degrees[to_add_index][0]
             grow_subgraph.add_node(to_add)
@@ -316,7 +316,7 @@ def resize(
                 to_remove_index = np.random.choice(degrees_min)
             elif node_select == "weight":
                 weights = np.array([w[degrees[n][0]] for n in degrees_min])
-                to_remove_index = np.random.choice(np.where(weights == weights.min())[0])
+                to_remove_index = degrees_min[np.random.choice(np.where(weights == weights.min())[0])]
 
             to_remove = degrees[to_remove_index][0]
             shrink_subgraph.remove_node(to_remove)
